@@ -222,7 +222,10 @@ func TestWorker(t *testing.T) {
 		emit(res)
 		done++
 		collectIfNeeded(done)
-		if res.Leaked && os.Getenv("VERIF_EXIT_ON_LEAK") != "" {
+		if res.Leaked && (os.Getenv("VERIF_EXIT_ON_LEAK") != "" || res.Verdict == "violation") {
+			// A violating run that left goroutines behind may also have left package-level state
+			// of the system behind (a registry lock that is deadlocked for good, say): the runs
+			// after it get a fresh process.
 			break
 		}
 	}
